@@ -54,6 +54,8 @@ pub trait Subj: Sync {
     /// parse `text` with StackTrace::try_parse, remap typed; (parsed, remapped, printed remapped)
     fn remap_typed_text(&self, text: &str) -> Option<(OTrace, OTrace, String)>;
     fn deobfuscate_signature(&self, sig: &str) -> Option<OSig>;
+    /// build a typed trace from the owned form, remap it; (remapped, printed input, printed remapped)
+    fn remap_typed(&self, t: &OTrace) -> (OTrace, String, String);
 }
 
 macro_rules! subject_module {
@@ -76,6 +78,79 @@ macro_rules! subject_module {
                         .collect(),
                     cause: t.cause().map(|c| Box::new(own_trace(c))),
                 }
+            }
+
+            pub fn build_trace<'a>(t: &'a OTrace) -> StackTrace<'a> {
+                let exception = t.exception.as_ref().map(|(c, m)| match m {
+                    Some(m) => Throwable::with_message(c, m),
+                    None => Throwable::new(c),
+                });
+                let frames = t
+                    .frames
+                    .iter()
+                    .map(|(c, m, l, f)| match f {
+                        Some(f) => StackFrame::with_file(c, m, *l, f),
+                        None => StackFrame::new(c, m, *l),
+                    })
+                    .collect();
+                match &t.cause {
+                    Some(c) => StackTrace::with_cause(exception, frames, build_trace(c)),
+                    None => StackTrace::new(exception, frames),
+                }
+            }
+
+            /// print -> parse -> compare / re-print (C17)
+            pub fn roundtrip(t: &OTrace) -> Result<(), String> {
+                let typed = build_trace(t);
+                let printed = typed.to_string();
+                let parsed = StackTrace::try_parse(printed.as_bytes()).ok_or_else(|| format!("printed trace does not parse: {:?}", printed))?;
+                if parsed != typed {
+                    return Err(format!("parse(print(t)) != t: printed {:?} parsed back as {:?}", printed, own_trace(&parsed)));
+                }
+                let again = parsed.to_string();
+                if again != printed {
+                    return Err(format!("print(parse(print(t))) != print(t): {:?} vs {:?}", again, printed));
+                }
+                Ok(())
+            }
+            /// text fix-point only (for frames without a file)
+            pub fn text_fixpoint(t: &OTrace) -> Result<(), String> {
+                let printed = build_trace(t).to_string();
+                let parsed = StackTrace::try_parse(printed.as_bytes()).ok_or_else(|| format!("printed trace does not parse: {:?}", printed))?;
+                let again = parsed.to_string();
+                if again != printed {
+                    return Err(format!("print(parse(print(t))) != print(t): {:?} vs {:?}", again, printed));
+                }
+                Ok(())
+            }
+            pub fn roundtrip_frame(class: &str, method: &str, line: usize, file: &str) -> Result<(), String> {
+                let f = StackFrame::with_file(class, method, line, file);
+                let printed = f.to_string();
+                for cand in [printed.clone(), format!("    {}", printed), format!("\t{}  ", printed)] {
+                    let p = StackFrame::try_parse(cand.as_bytes()).ok_or_else(|| format!("printed frame does not parse: {:?}", cand))?;
+                    if p != f {
+                        return Err(format!("parse(print(frame)) != frame for {:?}: {:?}", cand, p));
+                    }
+                    if p.to_string() != printed {
+                        return Err(format!("re-printed frame differs: {:?} vs {:?}", p.to_string(), printed));
+                    }
+                }
+                Ok(())
+            }
+            pub fn roundtrip_throwable(class: &str, message: Option<&str>) -> Result<(), String> {
+                let t = match message {
+                    Some(m) => Throwable::with_message(class, m),
+                    None => Throwable::new(class),
+                };
+                let printed = t.to_string();
+                let p = Throwable::try_parse(printed.as_bytes()).ok_or_else(|| format!("printed throwable does not parse: {:?}", printed))?;
+                if p != t {
+                    return Err(format!("parse(print(throwable)) != throwable for {:?}: {:?}", printed, p));
+                }
+                if p.to_string() != printed {
+                    return Err(format!("re-printed throwable differs: {:?}", p.to_string()));
+                }
+                Ok(())
             }
 
             fn mk_frame<'a>(
@@ -152,6 +227,12 @@ macro_rules! subject_module {
                         formatted: d.format_signature(),
                     })
                 }
+                fn remap_typed(&self, t: &OTrace) -> (OTrace, String, String) {
+                    let typed = build_trace(t);
+                    let printed = typed.to_string();
+                    let r = self.remap_stacktrace_typed(&typed);
+                    (own_trace(&r), printed, r.to_string())
+                }
             }
 
             impl<'s> Subj for ProguardCache<'s> {
@@ -212,6 +293,12 @@ macro_rules! subject_module {
                         ret: d.return_type().to_string(),
                         formatted: d.format_signature(),
                     })
+                }
+                fn remap_typed(&self, t: &OTrace) -> (OTrace, String, String) {
+                    let typed = build_trace(t);
+                    let printed = typed.to_string();
+                    let r = self.remap_stacktrace_typed(&typed);
+                    (own_trace(&r), printed, r.to_string())
                 }
             }
 
